@@ -43,6 +43,14 @@ def atomic_access(call):
     return None
 
 
+def clears_flag(c):
+    """a store of 0 to a hand-off flag (the worker giving its slot back)"""
+    from ..sir import const_value as _cv
+    acc = atomic_access(c)
+    return bool(acc and acc[0] == "store" and "m_has_job" in pp(c) and c.get("a")
+                and _cv(strip(c["a"][0])) in (0, False))
+
+
 def field_reads(fn, node, db, depth=0, seen=None):
     """member fields of `this` mentioned below node, following library callees (depth <= 4)"""
     seen = seen if seen is not None else set()
@@ -101,10 +109,24 @@ class NotifyWalker(LockWalker):
                 st = st.add("ev", "pred_written")
         return LockWalker.on_write(self, lv, st, node)
 
+    depth = 0
+
     def visit(self, node, st):
         if node.get("k") == "call" and node.get("bn", "").startswith("std::condition_variable::notify"):
             self.notifies.append((node, st.has("ev", "pred_updated_under_lock"),
                                   st.has("ev", "pred_written")))
+        elif node.get("k") == "call" and node.get("fid") is not None and self.depth < 3:
+            # a helper of the same class counts as "updates the predicate under the lock" when all
+            # its normal exits do (wrapper summary)
+            cal = self.fn.callee(node)
+            if cal is not None and cal.cls == self.fn.cls and cal.body is not None and not cal.is_lambda:
+                sub = NotifyWalker(cal, self.pred_fields, self.mutex)
+                sub.depth = self.depth + 1
+                sub.run()
+                outs = [s2 for kind, _, s2 in sub.exits if kind != "throw"]
+                for ev in ("pred_updated_under_lock", "pred_written"):
+                    if outs and all(s2.has("ev", ev) for s2 in outs):
+                        st = st.add("ev", ev)
         return st
 
 
@@ -131,6 +153,15 @@ class SeqWalker(LockWalker):
             cls = node.get("cls")
             if name in self.checks:
                 self.checks[name](node, st)
+            if node.get("bn", "") in ("std::for_each", "std::for_each_n"):
+                # the callable of a std algorithm runs here: its calls are checked in this state
+                for a in node.get("a", []):
+                    for n in walk(a):
+                        if n.get("k") == "lambda" and n.get("fid") in self.fn.unit.fns:
+                            for c2 in calls(self.fn.unit.fns[n["fid"]].body):
+                                nm2 = c2.get("bn", "").split("::")[-1]
+                                if nm2 in self.checks:
+                                    self.checks[nm2](c2, st)
             if cls == POOL:
                 if name == "resume":
                     st = st.add("ev", "not_paused")
@@ -291,6 +322,7 @@ def run(db, chk):
 
         class W(NotifyWalker):
             def visit(self, node, st):
+                st = NotifyWalker.visit(self, node, st)
                 if node.get("k") == "call" and node.get("bn") == POOL + "::run_tasks":
                     res.append((node, st.has("ev", "pred_written")))
                 return st
@@ -310,7 +342,7 @@ def run(db, chk):
             body = n.get("body")
             empty = body is None or body.get("k") == "null" or \
                 (body.get("k") == "compound" and not body.get("b"))
-            worker_loop = fn.is_lambda and "start" in fn.bn
+            worker_loop = any(clears_flag(c) for c in calls(fn.body))
             if not (empty or worker_loop):
                 continue
             reads = field_reads(fn, n["c"], db)
@@ -348,7 +380,8 @@ def run(db, chk):
                    detail="" if ok else "jobs published without (re)binding the job vector")
 
     for fn in pool_fns:
-        if not (fn.is_lambda and fn.bn.startswith(POOL + "::start")):
+        # the worker loop, wherever it lives (thread lambda or a helper it calls)
+        if not any(clears_flag(c) for c in calls(fn.body)):
             continue
         res = []
 
@@ -356,8 +389,7 @@ def run(db, chk):
             def visit(self, node, st):
                 st = SeqWalker.visit(self, node, st)
                 if node.get("k") == "call":
-                    acc = atomic_access(node)
-                    if acc and acc[0] == "store" and "m_has_job" in pp(node):
+                    if clears_flag(node):
                         guard = any("m_has_job" in f and not f.startswith("!(") for f in st.get("facts"))
                         res.append((node, guard and st.has("ev", "job_called"), guard,
                                     st.has("ev", "job_called")))
